@@ -26,4 +26,20 @@ handle that does not exist (malformed history, never sent to the code) -/
 inductive Obs | table (t : Table) | err | panic | fault
 deriving Repr, DecidableEq
 
+/-- the text is a well-formed table text of the line protocol (Model/Codon.lean): three "/"-separated parts, every
+amino-acid entry `LETTER:codons`, every codon `triplet=integer`.  `parseTable` is total (a malformed text would
+read as the empty table, an unparsable weight as 0); drivers call this first and treat a malformed reply of
+the implementation as a failure, never as a value. -/
+def validTableText (s : String) : Bool :=
+  match s.splitOn "/" with
+  | [_, _, c] =>
+    (splitNonEmpty c ";").all fun a =>
+      match a.splitOn ":" with
+      | [l, cs] => l != "" && (splitNonEmpty cs ",").all fun cd =>
+          match cd.splitOn "=" with
+          | [t, w] => t != "" && w.toInt?.isSome
+          | _ => false
+      | _ => false
+  | _ => false
+
 end PolyVerif.CodonTables
